@@ -202,6 +202,10 @@ func (d *segmentationDescriptor) parseDescriptor(data []byte) error {
 		b, _ := buf.ReadByte()
 		return b
 	}
+	if len(data) < 9 {
+		// identifier, event id and the cancel indicator byte are always present
+		return gots.ErrInvalidSCTE35Length
+	}
 	if binary.BigEndian.Uint32(buf.Next(4)) != segDescID {
 		return gots.ErrSCTE35InvalidDescriptorID
 	}
@@ -255,6 +259,10 @@ func (d *segmentationDescriptor) parseDescriptor(data []byte) error {
 				segUpidLen -= 1
 				UpidElem.upid = buf.Next(UpidElem.upidLen)
 				segUpidLen -= UpidElem.upidLen
+				if segUpidLen < 0 {
+					// an inner UPID overruns the MID; the loop would never reach zero again
+					return gots.ErrInvalidSCTE35Length
+				}
 				d.mid = append(d.mid, UpidElem)
 			}
 		} else {
